@@ -103,7 +103,44 @@ def run(ctx, spec):
         "slowest_scenarios": [{"scenario": n, "wall_s": round(w, 1)} for w, n in slow],
     }
     ctx.assumptions += spec.get("assumptions", [])
+    if spec.get("post"):
+        spec["post"](ctx, cov)
     return runner.finish(ctx, spec.get("level", "model_checking"), cov)
+
+
+def race_pass(ctx, cov):
+    """Supplementary free-running pass under the race detector (C17): same operation alphabet on real
+    goroutines. A race whose stacks are in non-test lib/go files, reproduced in 3 of 3 runs, is a
+    violation; anything else about this pass is recorded but never decides."""
+    import re, shutil
+    s = ctx.mkscratch()
+    d = os.path.join(s, "race")
+    shutil.rmtree(d, ignore_errors=True)
+    os.makedirs(d)
+    src = os.path.join(runner.REPO, "lib", "go")
+    for f in os.listdir(src):
+        if (f.endswith(".go") and not f.endswith("_test.go")) or f in ("go.mod", "go.sum"):
+            shutil.copy(os.path.join(src, f), d)
+    shutil.copy(os.path.join(VERIF, "harness", "race", "zz_verif_race_test.go"), d)
+    runs, reports, failures = 3, [], []
+    for i in range(runs):
+        p = subprocess.run(["go", "test", "-race", "-vet=off", "-count=1", "-run", "TestVerifRace", "."], cwd=d, env=GOENV, capture_output=True, text=True, timeout=1800)
+        out = p.stdout + p.stderr
+        if "WARNING: DATA RACE" in out:
+            fns = re.findall(r"\n\s+(github.com/Workiva/frugal/lib/go\.[^\s(]+)\(", out)
+            fns = [f for f in fns if "TestVerifRace" not in f and ".func" not in f.split("/")[-1][:0]]
+            reports.append(sorted(set(fns))[:6])
+        elif p.returncode != 0:
+            if "build failed" in out or "cannot find" in out:
+                cov["race_pass"] = {"error": out[-500:]}
+                return
+            failures.append(out[-800:])
+    cov["race_pass"] = {"runs": runs, "runs_with_race_reports": len(reports), "other_failures": len(failures)}
+    if len(reports) == runs:
+        site = (reports[0] or ["?"])[0].split("/")[-1]
+        ctx.violation("C17/data-race/" + site, "the race detector reports a data race in lib/go in every one of %d free-running runs of the shared-FContext operations: %s" % (runs, reports[0]), {"engine": "race", "functions": reports[0]})
+    if len(failures) == runs:
+        ctx.violation("C17/race-pass-failure", "the free-running pass fails in every run: " + failures[0][-400:], {"engine": "race", "output": failures[0]})
 
 
 def replay(ctx, spec, path):
